@@ -116,6 +116,51 @@ rules:
   on_error:
     - error_handler: challenge
       if: type(Error) == authentication_error
+- id: celauthz
+  match: { routes: [ { path: /cel/authz } ] }
+  forward_to: { host: "UPSTREAM" }
+  execute:
+    - authenticator: anon
+    - authorizer: cel_mode
+- id: celattr
+  match: { routes: [ { path: /cel/attr } ] }
+  forward_to: { host: "UPSTREAM" }
+  execute:
+    - authenticator: anon
+    - authorizer: cel_role
+- id: celdiv
+  match: { routes: [ { path: /cel/div } ] }
+  forward_to: { host: "UPSTREAM" }
+  execute:
+    - authenticator: anon
+    - authorizer: cel_div
+- id: celstepif
+  match: { routes: [ { path: /cel/stepif } ] }
+  forward_to: { host: "UPSTREAM" }
+  execute:
+    - authenticator: anon
+    - authorizer: deny
+      if: '{"ok": true, "deny": false}[Request.Header("X-Mode")]'
+- id: celehif
+  match: { routes: [ { path: /cel/ehif } ] }
+  forward_to: { host: "UPSTREAM" }
+  execute:
+    - authenticator: deny_all
+  on_error:
+    - error_handler: to_login
+      if: '{"ok": true, "deny": false}[Request.Header("X-Mode")]'
+    - error_handler: challenge
+- id: celehlast
+  match: { routes: [ { path: /cel/ehlast } ] }
+  forward_to: { host: "UPSTREAM" }
+  execute:
+    - authenticator: anon
+    - authorizer: deny
+  on_error:
+    - error_handler: to_login
+      if: type(Error) == authentication_error
+    - error_handler: challenge
+      if: '[true, false][Request.Header("X-Mode").size() - 2]'
 - id: unreachable
   match: { routes: [ { path: /unreachable } ] }
   forward_to: { host: "DEADHOST" }
@@ -141,6 +186,21 @@ mechanisms:
   authorizers:
     - id: deny
       type: deny
+    - id: cel_mode
+      type: cel
+      config:
+        expressions:
+          - expression: '{"ok": true, "deny": false}[Request.Header("X-Mode")]'
+    - id: cel_div
+      type: cel
+      config:
+        expressions:
+          - expression: '10 / (Request.Header("X-Mode").size() - 2) > 3'
+    - id: cel_role
+      type: cel
+      config:
+        expressions:
+          - expression: 'Subject.Attributes.role == "admin"'
     - id: remote_dead
       type: remote
       config:
@@ -259,6 +319,24 @@ func c12ApplyOverrides(rc *config.RespondConfig, cfg c12Cfg) {
 	rc.With.InternalError.Code = cfg.internalErr
 }
 
+// c12RedirectRules: one rule per configured redirect code, answered by a redirect error handler of its own
+func c12RedirectRules(codes []int) string {
+	var sb strings.Builder
+
+	for _, code := range codes {
+		fmt.Fprintf(&sb, `- id: redirect%d
+  match: { routes: [ { path: /redirect/%d } ] }
+  forward_to: { host: "UPSTREAM" }
+  execute:
+    - authenticator: deny_all
+  on_error:
+    - error_handler: to_login_%d
+`, code, code, code)
+	}
+
+	return sb.String()
+}
+
 func c12StartStack(c map[string]any, cfgText string, mutate func(*config.Configuration)) (*c12Stack, error) {
 	st := &c12Stack{addr: map[string]string{}}
 
@@ -303,7 +381,7 @@ func c12StartStack(c map[string]any, cfgText string, mutate func(*config.Configu
 	}()
 
 	rulesFile := filepath.Join(dir, "rules.yaml")
-	rulesText := strings.ReplaceAll(c12Rules, "UPSTREAM", upstream.Addr().String())
+	rulesText := strings.ReplaceAll(c12Rules+c12RedirectRules(getInts(c, "rcodes")), "UPSTREAM", upstream.Addr().String())
 	rulesText = strings.ReplaceAll(rulesText, "DEADHOST", dead.Addr().String())
 
 	if err = os.WriteFile(rulesFile, []byte(rulesText), 0o600); err != nil {
@@ -409,7 +487,7 @@ var c12IgnoredHeaders = map[string]bool{ //nolint:gochecknoglobals
 	"Date": true, "Content-Length": true, "Connection": true, "Vary": true, "Transfer-Encoding": true,
 }
 
-func (s *c12Stack) doHTTP(svc, path string, accept any) c12Resp {
+func (s *c12Stack) doHTTP(svc, path string, accept any, extra map[string]any) c12Resp {
 	req, err := http.NewRequest(http.MethodGet, "http://"+s.addr[svc]+path, nil)
 	if err != nil {
 		return c12Resp{Out: "rpcerr", GRPC: -1, Hdrs: [][]string{{"error", err.Error()}}}
@@ -417,6 +495,12 @@ func (s *c12Stack) doHTTP(svc, path string, accept any) c12Resp {
 
 	if a, ok := accept.(string); ok {
 		req.Header.Set("Accept", a)
+	}
+
+	for k, v := range extra {
+		if sv, ok := v.(string); ok {
+			req.Header.Set(k, sv)
+		}
 	}
 
 	res, err := c12Client.Do(req)
@@ -454,10 +538,16 @@ func (s *c12Stack) doHTTP(svc, path string, accept any) c12Resp {
 		Fmt: c12BodyFmt(body), GRPC: -1}
 }
 
-func (s *c12Stack) doGRPC(path string, accept any) c12Resp {
+func (s *c12Stack) doGRPC(path string, accept any, extra map[string]any) c12Resp {
 	hdrs := map[string]string{}
 	if a, ok := accept.(string); ok {
 		hdrs["accept"] = a
+	}
+
+	for k, v := range extra {
+		if sv, ok := v.(string); ok {
+			hdrs[strings.ToLower(k)] = sv
+		}
 	}
 
 	ctx, cancel := context.WithTimeout(context.Background(), 20*time.Second)
@@ -502,6 +592,16 @@ func c12RunServices(c map[string]any) (any, error) {
 		cf.Prototypes.ErrorHandlers = append(cf.Prototypes.ErrorHandlers, c12ErrorHandlerPrototypes(c)...)
 
 		// the schema admits the redirect codes 301 and 302 only, the mechanism any integer
+		for _, code := range getInts(c, "rcodes") {
+			cf.Prototypes.ErrorHandlers = append(cf.Prototypes.ErrorHandlers, config.Mechanism{
+				ID: fmt.Sprintf("to_login_%d", code), Type: "redirect",
+				Config: config.MechanismConfig{
+					"to":   "http://login.local/sign-in?origin={{ .Request.URL.Path | urlenc }}",
+					"code": code,
+				},
+			})
+		}
+
 		if rcode != 0 {
 			for i, m := range cf.Prototypes.ErrorHandlers {
 				if m.ID == "to_login" {
@@ -526,9 +626,9 @@ func c12RunServices(c map[string]any) (any, error) {
 
 		switch svc := getStr(rq, "svc"); svc {
 		case "decision", "proxy":
-			resp = st.doHTTP(svc, getStr(rq, "path"), rq["accept"])
+			resp = st.doHTTP(svc, getStr(rq, "path"), rq["accept"], obj(rq["hdr"]))
 		case "envoy":
-			resp = st.doGRPC(getStr(rq, "path"), rq["accept"])
+			resp = st.doGRPC(getStr(rq, "path"), rq["accept"], obj(rq["hdr"]))
 		default:
 			return nil, errors.New("unknown service " + svc)
 		}
